@@ -52,11 +52,11 @@ FMT_Q = ['uint:3', 'bin', 'hex:5', 'ue', 'zzz', 'uint:-1', '2*(', '', 'uint:0', 
 HEAVY = {'split', 'replace', 'findall', 'cut', 'find', 'rfind', 'readto', 'startswith', 'endswith', '__contains__'}
 
 
-def _bslike(K, kind, s):
+def _bslike(K, kind, s, idx=0):
     import bitstring
     import bitarray
     if kind == 'sym2':
-        return mk(K, bitstring.Bits, K.bits('arg', 2))
+        return mk(K, bitstring.Bits, K.bits(f'arg{idx}', 2))
     return {'empty-str': '', '0b1': '0b1', '0x': '0x', 'uint:4=x': 'uint:4=x', 'bytes': b'\x01', 'list': [1, 0, 1], 'int5': 5, 'none': None, 'float': 1.5, 'self': s,
             'bitarray': bitarray.bitarray('01'), '0b': '0b', 'hex:3=abc': 'hex:3=abc'}[kind]
 
@@ -70,9 +70,9 @@ def _arg(K, code, s, idx):
     if code == 'C':
         return K.int(f'a{idx}', -3, 6)
     if code == 'B':
-        return _bslike(K, K.choice(f'a{idx}', BSLIKE_Q if LIGHT[0] else BSLIKE), s)
+        return _bslike(K, K.choice(f'a{idx}', BSLIKE_Q if LIGHT[0] else BSLIKE), s, idx)
     if code == 'Bc':   # bitstring-like without symbolic content (search-type methods fork on every match)
-        return _bslike(K, K.choice(f'a{idx}', ['0b1', 'uint:4=x', 'int5', 'self'] if LIGHT[0] else [b for b in BSLIKE if b != 'sym2']), s)
+        return _bslike(K, K.choice(f'a{idx}', ['0b1', 'uint:4=x', 'int5', 'self'] if LIGHT[0] else [b for b in BSLIKE if b != 'sym2']), s, idx)
     if code == 'F':
         return K.choice(f'a{idx}', FMT_Q if LIGHT[0] else FMT)
     if code == 'R':
